@@ -23,7 +23,9 @@ RULE = ("operation sequences over names differing only in case + Set-Cookie casi
 EXHAUSTIVE = {"quick": False, "thorough": False}
 
 NAMES = ["X-Test", "x-test", "X-TEST", "Set-Cookie", "set-cookie", "SET-COOKIE", "Content-Type", "content-type"]
-VALUES = ["a", "b c", "é", "Ž€", "\U0001F600", "", "x\"y\\z"]
+VALUES = ["a", "b c", "é", "Ž€", "\U0001F600", "", "x\"y\\z",
+          # text whose UTF-8 bytes end or begin with 0x85 / 0xA0 (white space when read as latin-1), and white space kept as given
+          "voilà", "МИР", "Ġ", "lineŅ", "àb", " lead", "trail ", "\ttab\t", " "]
 
 
 NONSTR = {"!0": 0, "!f": False, "!z": 0.0, "!b": b"", "!l": [], "!t": (), "!B": b"x", "!T": True}
